@@ -296,6 +296,11 @@ SPECIAL_SLOTS = [
     ('xx = {}', 'value', 'zz', 'BARE'), ('return {}', 'value', 'zz', 'BARE'), ('xx = {} < yy', 'value.left', 'zz', 'BARE'), ('xx = yy < {}', 'value.comparators[0]', 'zz', 'BARE'),
     ('assert {}', 'test', 'zz', 'BARE'), ('xx += {}', 'value', 'zz', 'BARE'), ('xx = not {}', 'value.operand', 'zz', 'BARE'), ('xx = yy + {}', 'value.right', 'zz', 'BARE'),
     ('xx = {}, yy', 'value.elts[0]', 'zz', 'BARE'), ('xx = yy if {} else ww', 'value.test', 'zz', 'BARE'), ('xx: {} = yy', 'annotation', 'zz', 'BARE'), ('raise {} from yy', 'exc', 'zz', 'BARE'),
+    # assignment / deletion targets: what is not a target is refused, never written
+    ('*{}, bb = cc', 'targets[0].elts[0].value', 'zz', 'TGT'), ('{}, bb = cc', 'targets[0].elts[0]', 'zz', 'TGT'), ('for {} in cc: pass', 'target', 'zz', 'TGT'), ('for *{}, bb in cc: pass', 'target.elts[0].value', 'zz', 'TGT'),
+    ('[{}, bb] = cc', 'targets[0].elts[0]', 'zz', 'TGT'), ('[*{}, bb] = cc', 'targets[0].elts[0].value', 'zz', 'TGT'), ('with cc as {}: pass', 'items[0].optional_vars', 'zz', 'TGT'), ('{} = cc', 'targets[0]', 'zz', 'TGT'),
+    ('aa = {} = cc', 'targets[1]', 'zz', 'TGT'), ('del {}', 'targets[0]', 'zz', 'TGT'), ('del aa, {}', 'targets[1]', 'zz', 'TGT'), ('{} += cc', 'target', 'zz', 'TGT'), ('{}: int = cc', 'target', 'zz', 'TGT'),
+    ('tt = [ii for {} in cc]', 'value.generators[0].target', 'zz', 'TGT'), ('tt = [ii for *{}, bb in cc]', 'value.generators[0].target.elts[0].value', 'zz', 'TGT'), ('with cc as (*{}, bb): pass', 'items[0].optional_vars.elts[0].value', 'zz', 'TGT'),
     ("t = f'{{ {}!r:>9 }}'", 'value.values[0].value', 'zz', 'FSTR'), ("t = f'{{ [aa, {}] }}'", 'value.values[0].value.elts[1]', 'zz', 'FSTR'), ("t = f'{{ aa or {} }}'", 'value.values[0].value.values[1]', 'zz', 'FSTR'),
 ]
 SPECIAL_REPL = {
@@ -305,6 +310,8 @@ SPECIAL_REPL = {
     'BARE': ["('a'\n'b' + \\\n cc)", "(f'a'\nf'{bb}' + \\\n cc)", "(b'a'\nb'b' * \\\n cc)", "('a'\n'b' + cc)", "('a' \\\n'b' + \\\n cc)", "('a'\n'b')", '(aa +\n bb)', '(aa + \\\n bb)',
              "('a' # c\n'b')", '(aa\n.bb)', "('''a\nb''' + \\\n cc)", '(aa)', "('a'\n'b').cc", '(aa if bb else\n cc)', "('a'\n'b' \\\n 'c')", "(cc + \\\n 'a'\n'b')", "('a'\n'b' % \\\n cc)",
              "(f'''a\n{bb}''' + \\\n cc)", "(aa \\\n + 'a'\n'b' \\\n)"],
+    'TGT': ['yy + zz', 'ff()', '1', 'yy.zz', 'yy[zz]', '(yy, zz)', '[yy, *zz]', 'yy', '(yy)', 'yy if zz else ww', 'not yy', 'lambda: 0', '(yy\n.zz)', 'yy[zz:ww]', '*yy', '(yy := zz)', 'None', '"ss"', '[yy, ff()]', '(yy, 1)', 'yy.zz.ww[0]',
+            '[]', '()', '...', '-yy', 'yy, zz'],
     'GLUE': ['(pp +\n qq)', 'gg(pp,\n qq).rr', '(pp + \\\n qq)', 'pp', '(pp)', '[pp,\n qq]', '(pp\n .qq)', 'pp +\\\n qq', '(pp if qq else\n rr)', '"s"\\\n "t"'],
     'FSTR': ['(aa if bb else lambda: xx)', '(cc, lambda: xx)', '(aa if bb else\n lambda: xx)', '(cc,\n lambda: xx)', 'lambda: xx', 'aa if bb else lambda: xx', 'cc, lambda: xx', '(lambda: xx)', 'ff(lambda: xx)', '[lambda: xx]', 'aa if bb else (lambda: xx)', 'xx := 1', '(xx := 1)', 'not lambda: xx' if False else 'xx if yy else zz',
              'lambda aa=1: aa', 'cc if dd else ee if ff else lambda: xx', '{kk: lambda: xx}', 'xx or yy', 'yield xx' if False else 'xx[lambda: yy]'],
@@ -335,6 +342,8 @@ def stage_special_slots(ctx: Ctx):
             getattr(holder, fld)[int(idx)] = marker
         else:
             setattr(holder, last, marker)
+        if isinstance(holder, ast.AnnAssign):
+            holder.simple = None        # follows the kind of target
         return canon(tree)
     for tmpl, path, placeholder, fam in SPECIAL_SLOTS:
         variants = [(tmpl, 0, '')]
@@ -349,7 +358,17 @@ def stage_special_slots(ctx: Ctx):
                 continue
             for repl in SPECIAL_REPL[fam]:
                 try:
-                    if fam == 'PAT':
+                    if fam == 'TGT':
+                        want_child = ast.Constant(value='<<no target: must be refused>>')
+                        for cand in ('(\n' + repl + '\n)', repl):       # the node itself (in parentheses of its own), or - a starred element - bare
+                            try:
+                                t_ = ast.parse(S.build(vtmpl, cand))
+                                if blank_i(t_, path, si) == blank_i(ast.parse(src0), path, si):
+                                    want_child = hole_i(ast.parse(S.build(vtmpl, cand)), path, si)
+                                    break
+                            except (SyntaxError, IndexError, AttributeError, TypeError):
+                                pass
+                    elif fam == 'PAT':
                         want_child = ast.parse(f'match _:\n case (\n{repl}\n): pass').body[0].cases[0].pattern
                     else:
                         want_child = ast.parse(f'[\n{repl}\n]', mode='eval').body.elts[0] if fam == 'STAR' else ast.parse(f'(\n{repl}\n)', mode='eval').body
